@@ -82,3 +82,45 @@ PROPS['C17'] = dict(
     trusted=ENGINE_TRUSTED + ["Go regexp for the default input pattern is modelled by a hand-written matcher (matchesInput), compared on every generated input; custom validators (AddValidInput) are not modelled"],
     assumptions=["engines without custom input validators"],
 )
+
+PROPS['C03'] = dict(
+    prop_modules=['Vise.Props.C03'], lean_targets=['Vise.Props.C03'], suites=['engine'],
+    compare={'engine': eng(['x', 'c', 'f', 'p', 'i', 'o', 'fl'])},
+    trusted=ENGINE_TRUSTED, assumptions=["flag field well-formed (FlagsOk: the 8 built-in flags exist), as NewState guarantees"],
+)
+PROPS['C05'] = dict(
+    prop_modules=['Vise.Props.C05'], lean_targets=['Vise.Props.C05'], suites=['engine', 'cache'],
+    compare={'engine': eng(['x', 'f', 'fr', 'sz', 'u', 'lv', 'cl', 'o'])},
+    trusted=ENGINE_TRUSTED, assumptions=["declared sizes 0..65535 (a larger LOAD size is truncated to uint16 by the VM, outside the property's domain)"],
+)
+PROPS['C07'] = dict(
+    prop_modules=['Vise.Props.C07'], lean_targets=['Vise.Props.C07'], suites=['engine'],
+    compare={'engine': eng(['x', 'c', 'f', 'o', 'fin'])},
+    trusted=ENGINE_TRUSTED + ["backends: the engine suite persists through the memory store; filesystem and Postgres-fake stores are covered by C10's map refinement (Save/Load is Put/Get of one key)",
+                              "with a `first` function the two modes differ by design (it runs once per engine object); such cases are excluded from the mode comparison"],
+    assumptions=["histories up to the end of the session"],
+)
+PROPS['C08'] = dict(
+    prop_modules=['Vise.Props.C08'], lean_targets=['Vise.Props.C08'], suites=['engine'],
+    compare={'engine': eng(['x', 'f', 'fin', 'p', 'i', 'fr', 'sz', 'u'])},
+    trusted=ENGINE_TRUSTED + ["well-formedness (wf=1) is established by the generator's construction rules, not re-checked"],
+    assumptions=["external results + capacity < 2^32 (EnvBounded)"],
+)
+PROPS['C18'] = dict(
+    prop_modules=['Vise.Props.C18'], lean_targets=['Vise.Props.C18'], suites=['engine'],
+    compare={'engine': eng(['x', 'lk', 'cl', 'lg', 'o'])},
+    trusted=ENGINE_TRUSTED + ["the ISO-639 table (github.com/barbashov/iso639-3) is a parameter; the harness fills it by hand for the codes it uses (nor/no, eng/en, swa, fra/fr) and the real LanguageFromCode runs on the Go side",
+                              "gettext PO resources (resource/gettext.go) are not modelled"],
+    assumptions=[],
+)
+PROPS['C20'] = dict(
+    prop_modules=['Vise.Props.C20'], lean_targets=['Vise.Props.C20'], suites=['engine'],
+    compare={'engine': eng(['x', 'c', 'f', 'o', 'fin', 'p', 'fl', 'fr', 'cd'])},
+    trusted=ENGINE_TRUSTED, assumptions=["engines without a `first` function (with one, blocked requests deliver the stale exit value: known finding)"],
+)
+
+PROPS['C02'] = dict(
+    prop_modules=['Vise.Props.C02'], lean_targets=['Vise.Props.C02'], suites=['render'],
+    trusted=ENGINE_TRUSTED + ["the render suite renders every index on a fresh Page/Menu/Sizer, as the engine does per request; walking with the next selector through the engine is covered by the engine suite's lst/sub nodes"],
+    assumptions=["OutputSize > 0"],
+)
